@@ -44,6 +44,43 @@ pub fn explore(opts: &Opts) -> Explored {
         l.only = opts.only.clone();
         total.merge(l);
     }
+    // histories under f32: accumulation over passes and clears with inexact sums of very different
+    // magnitudes (what a float-width-specific accumulation scheme would have to get right)
+    {
+        use crate::checks::c10::{base_cfg, run_all};
+        use crate::machine::{Bounds, LeafSpec};
+        use crate::ops::OpK;
+        let lv = vec![
+            LeafSpec { dims: vec![2], vals: vec![0.1, 1000.3], tracked: true },
+            LeafSpec { dims: vec![2], vals: vec![1000.7, 0.3], tracked: true },
+        ];
+        let mut m = base_cfg("f32/N1P4C1/accumulate", lv, vec![OpK::Mul], 3);
+        m.bounds = Bounds { builds: 1, passes: 4, clears: 1, depth: 6, ..Bounds::default() };
+        m.seeds = vec![0, 4];
+        // unmerged: a width-specific accumulation scheme may keep hidden state the probe does not know
+        m.merged = false;
+        let mut o = opts.clone();
+        let skip = match &opts.only {
+            Some(only) => match only.strip_prefix("E3:") {
+                Some(rest) => {
+                    o.only = Some(rest.to_string());
+                    false
+                }
+                None => true,
+            },
+            None => false,
+        };
+        if !skip {
+            let (mut ml, st) = run_all(&o, vec![m]);
+            for v in ml.violations.iter_mut() {
+                v.sub = format!("f32/E3/{}", v.sub);
+                v.case = format!("E3:{}", v.case);
+            }
+            ml.only = opts.only.clone();
+            parts.push(json!({"space": "E3 accumulation machine under f32", "machines": st}));
+            total.merge(ml);
+        }
+    }
     Explored {
         local: total,
         bounds: json!({"float": "f32", "spaces": parts, "tolerance": format!("|impl - ref| <= {} * running error bound; integer-exact cases below 2^24 must be equal", tau())}),
